@@ -59,7 +59,7 @@ def interleave(seqs, rng):
 class C09(Prop):
     id = "C09"
     thorough_rounds = 8   # thorough tier: this many independently seeded rounds of the random generators (duplicates dropped)
-    modules = ["H3.Props.C09", "H3.Lemmas.GenAgreeGoaway"]
+    modules = ["H3.Props.C09", "H3.Lemmas.GenAgreeGoaway", "H3.Lemmas.GenAgreeDrain"]
     engines = ["drain"]
     design_ref = "DESIGN.md section 7, C09; section 8, D-09"
     level_text = ("Lean theorems over a model of ongoing_streams, the request-end channel, the Arc<RequestEnd> owners (resolver, "
@@ -81,7 +81,7 @@ class C09(Prop):
             "errors) run one after the other, peer GOAWAY at every position, accept loop conn.AL or single conn.A calls; "
             "3..4 requests (thorough: up to 6) with random endings, random interleavings of the per-request ops, GOAWAY at "
             "sampled positions, executor seeds 0..3; many requests (both tiers; the sentence is universal, the quantifier's "
-            "0..4 is not a bound of the mechanism): 129, 130, 200 and 300 requests, each handed out by its own accept() call, "
+            "0..4 is not a bound of the mechanism): 129, 130, 200, 300 and 2 000 requests, each handed out by its own accept() call, "
             "left as resolver / answered and finished / reset by the peer after its headers, then EVERY handle dropped while no "
             "accept() is outstanding (i.e. between two polls of accept), peer GOAWAY before or after the drops, one more "
             "accept(): it must answer None (a bounded or lossy request-end queue shows as pend=1); "
@@ -122,9 +122,15 @@ class C09(Prop):
         return self.line(ops + ["conn.A"], seed=seed)
 
     def many_cases(self):
+        # the counts 129 / 130 / 200 / 300 straddle the constant of ONE seeded change (a queue of 128); that the queue has no
+        # capacity at all is not sampled but READ from the source on every run (tools/extract.py `drain_arms` ->
+        # H3/Gen/DrainArms.lean, lemmas H3/Lemmas/GenAgreeDrain.lean: `mpsc::unbounded_channel()`, the body of `Drop for
+        # RequestEnd`, the `Arc` shared by `split()`).  The 2 000-request lines are an order of magnitude away from any small
+        # constant (stream ids up to 7 996; ~0.8 s per line through h3drv, ~0.05 s through h3run).
         return [self.many(130), self.many(300),
                 self.many(129, goaway="before"), self.many(130, goaway="before", seed=2),
-                self.many(130, ending="finished", seed=1), self.many(200, ending="reset-after-headers", seed=3)]
+                self.many(130, ending="finished", seed=1), self.many(200, ending="reset-after-headers", seed=3),
+                self.many(2000), self.many(2000, goaway="before", seed=1)]
 
     def cases(self, tier, rng):
         big = tier == "thorough"
